@@ -36,6 +36,7 @@ import (
 
 type config struct {
 	Method string `json:"method"`
+	Status string `json:"status"` // upstream status: "200" | "204"
 	Body   string `json:"body"`
 	Ct     string `json:"ct"`
 	Csp    string `json:"csp"`
@@ -84,6 +85,7 @@ type prepared struct {
 	wire   []byte // the bytes on the wire (encoded)
 	plain  []byte // the document
 	encTok string // Content-Encoding token sent ("" = none)
+	status int    // 200, or a status that excludes a body (then neither body nor Content-Length is sent)
 }
 
 var (
@@ -103,6 +105,10 @@ func backend(w http.ResponseWriter, r *http.Request) {
 	}
 	if p.noCT {
 		w.Header()["Content-Type"] = nil // suppress net/http's content sniffing: really no Content-Type
+	}
+	if p.status != http.StatusOK {
+		w.WriteHeader(p.status)
+		return
 	}
 	w.Header().Set("Content-Length", strconv.Itoa(len(p.wire)))
 	w.WriteHeader(http.StatusOK)
@@ -521,9 +527,9 @@ type outcome struct {
 // signature names the root cause as the spec names it: the branch of modifyResponse's decision, or -- for a
 // nonce failure that the spec's nonce extraction reproduces exactly -- the branch of that extraction.
 func signature(tc tcase, o outcome) string {
-	if tc.Cfg.Method == "HEAD" && o.headAsModelled {
+	if (tc.Cfg.Method == "HEAD" || tc.Cfg.Status != "200") && o.headAsModelled {
 		for _, p := range tc.Path {
-			if strings.HasPrefix(p, "Head.") {
+			if strings.HasPrefix(p, "Head.") || strings.HasPrefix(p, "NoBodyStatus.") {
 				return p + ":" + o.invariant
 			}
 		}
@@ -553,7 +559,11 @@ func (e *env) exchange(tc tcase, size int, rng *rand.Rand) outcome {
 	wire, tok := encode(c.Enc, plain, rng)
 	ct, noCT := contentType(c.Ct, rng)
 	csp := cspFor(tc.CspLines, rng)
-	p := &prepared{header: http.Header{}, noCT: noCT, wire: wire, plain: plain, encTok: tok}
+	upstreamStatus := http.StatusOK
+	if c.Status != "" && c.Status != "200" {
+		upstreamStatus, _ = strconv.Atoi(c.Status)
+	}
+	p := &prepared{header: http.Header{}, noCT: noCT, wire: wire, plain: plain, encTok: tok, status: upstreamStatus}
 	if !noCT {
 		p.header.Set("Content-Type", ct)
 	}
@@ -596,6 +606,10 @@ func (e *env) exchange(tc tcase, size int, rng *rand.Rand) outcome {
 	}
 	resp, err := e.client.Do(req)
 	if err != nil {
+		if upstreamStatus != http.StatusOK {
+			o.headAsModelled = tc.Status == "aborted"
+			return bad("HeadIsUntouched", fmt.Sprintf("GET -> %d (no body, Content-Type %q, Content-Encoding %q): the proxied exchange failed: %v", upstreamStatus, ct, tok, err))
+		}
 		return bad("LengthMatchesBody", "the proxied exchange failed: "+err.Error())
 	}
 	raw, rerr := io.ReadAll(resp.Body)
@@ -608,23 +622,28 @@ func (e *env) exchange(tc tcase, size int, rng *rand.Rand) outcome {
 		}
 	}
 	o.rep.GotHeaders = strings.Join(hs, " | ")
-	if c.Method == "HEAD" {
+	if c.Method == "HEAD" || upstreamStatus != http.StatusOK {
 		// HeadIsUntouched: no body to append to -- status, declared length, encoding and type are the upstream's
+		kind := c.Method + " -> " + strconv.Itoa(upstreamStatus)
 		cl := resp.Header.Get("Content-Length")
-		o.headAsModelled = (tc.Status == "badgateway") == (resp.StatusCode == http.StatusBadGateway) &&
-			(tc.Cl == "synthetic") == (resp.StatusCode == http.StatusOK && cl != strconv.Itoa(len(wire)))
-		switch {
-		case resp.StatusCode != http.StatusOK:
-			return bad("HeadIsUntouched", fmt.Sprintf("HEAD: status %d instead of the upstream's 200 (upstream headers: Content-Type %q, Content-Encoding %q, Content-Length %d)", resp.StatusCode, ct, tok, len(wire)))
-		case len(raw) != 0:
-			return bad("HeadIsUntouched", fmt.Sprintf("HEAD: %d body bytes received", len(raw)))
-		case cl != strconv.Itoa(len(wire)):
-			return bad("HeadIsUntouched", fmt.Sprintf("HEAD: Content-Length %q, the upstream declared %d (the length of the resource)", cl, len(wire)))
-		case resp.Header.Get("Content-Encoding") != tok:
-			return bad("HeadIsUntouched", fmt.Sprintf("HEAD: Content-Encoding %q became %q", tok, resp.Header.Get("Content-Encoding")))
+		wantCL := strconv.Itoa(len(wire))
+		if upstreamStatus != http.StatusOK {
+			wantCL = "" // the upstream declares no length with 204/304
 		}
-		if tc.Status != "ok" || tc.Cl != "match" {
-			o.drift = "spec (as configured for this tree) predicts an altered HEAD response, the real proxy passed it through"
+		o.headAsModelled = tc.Status != "aborted" && (tc.Status == "badgateway") == (resp.StatusCode == http.StatusBadGateway) &&
+			(tc.Cl == "synthetic") == (resp.StatusCode == upstreamStatus && cl != wantCL)
+		switch {
+		case resp.StatusCode != upstreamStatus:
+			return bad("HeadIsUntouched", fmt.Sprintf("%s: status %d instead of the upstream's %d (upstream headers: Content-Type %q, Content-Encoding %q)", kind, resp.StatusCode, upstreamStatus, ct, tok))
+		case len(raw) != 0:
+			return bad("HeadIsUntouched", fmt.Sprintf("%s: %d body bytes received", kind, len(raw)))
+		case cl != wantCL:
+			return bad("HeadIsUntouched", fmt.Sprintf("%s: Content-Length %q, the upstream declared %q", kind, cl, wantCL))
+		case resp.Header.Get("Content-Encoding") != tok:
+			return bad("HeadIsUntouched", fmt.Sprintf("%s: Content-Encoding %q became %q", kind, tok, resp.Header.Get("Content-Encoding")))
+		}
+		if tc.Status != "ok" || (tc.Cl != "match" && tc.Cl != "absent") {
+			o.drift = "spec (as configured for this tree) predicts an altered bodyless response, the client received it unaltered"
 		}
 		return o
 	}
@@ -856,7 +875,15 @@ func main() {
 		if ok.invariant != "" {
 			ctrule = "casesensitive"
 		}
-		vhlib.Summary(map[string]any{"rule": rule, "detail": ou.detail, "csprule": csprule, "cspdetail": ol.detail,
+		// (e) a 204 answer labelled text/html, gzip
+		n := find(tcs, config{Status: "204", Body: "full", Ct: "html", Csp: "none", Enc: "gzip", Req: "plain", Accept: "browser"})
+		n.Status, n.Cl = "ok", "absent"
+		on := e.exchange(n, 600, rng)
+		statusrule := "pass"
+		if on.invariant != "" {
+			statusrule = "rewrite"
+		}
+		vhlib.Summary(map[string]any{"statusrule": statusrule, "statusdetail": on.detail, "rule": rule, "detail": ou.detail, "csprule": csprule, "cspdetail": ol.detail,
 			"headrule": headrule, "headdetail": oh.detail, "ctrule": ctrule, "ctdetail": ok.detail})
 	case "selftest":
 		// binding self-test: corrupted predictions must be reported
@@ -907,6 +934,9 @@ func find(tcs []tcase, c config) tcase {
 	if c.Method == "" {
 		c.Method = "GET"
 	}
+	if c.Status == "" {
+		c.Status = "200"
+	}
 	for _, tc := range tcs {
 		if tc.Cfg == c {
 			return tc
@@ -954,7 +984,7 @@ func cases(args []string) {
 	bigAt := map[int]bool{}
 	var rw, pt []int
 	for i, tc := range tcs {
-		if tc.Cfg.Body == "empty" || tc.Cfg.Method == "HEAD" {
+		if tc.Cfg.Body == "empty" || tc.Cfg.Method == "HEAD" || tc.Cfg.Status != "200" {
 			continue
 		}
 		if tc.MustPass {
@@ -976,7 +1006,7 @@ func cases(args []string) {
 			jobs = append(jobs, job{i, 0})
 			continue
 		}
-		if tc.Cfg.Method == "HEAD" {
+		if tc.Cfg.Method == "HEAD" || tc.Cfg.Status != "200" {
 			// no body travels: one exchange, the size only sets the Content-Length the upstream declares
 			jobs = append(jobs, job{i, 300 + rng.Intn(40000)})
 			continue
@@ -1016,7 +1046,7 @@ func cases(args []string) {
 	nhuge := 0
 	for i, tc := range tcs {
 		c := tc.Cfg
-		if c.Method != "GET" || tc.MustPass || c.Ct != "html" || c.Csp != "none" || c.Accept != "browser" || c.Enc == "unsupported" {
+		if c.Method != "GET" || c.Status != "200" || tc.MustPass || c.Ct != "html" || c.Csp != "none" || c.Accept != "browser" || c.Enc == "unsupported" {
 			continue
 		}
 		for _, d := range hugeDocs {
